@@ -33,6 +33,12 @@ STMT = {
     "If": "if _c0:\n    _s0\nelse:\n    _s1",
     "If.block2": "if _c0:\n    _s0\n    _s1",
     "If.elif": "if _c0:\n    _s0\nelif _c1:\n    _s1\nelse:\n    _s2",
+    "If.or": "if _c0 or _c1:\n    _s0\nelse:\n    _s1",
+    "If.and-not": "if _c0 and not _c1:\n    _s0",
+    "If.chain": "if _c0 < _c1 < _c2:\n    _s0\nelse:\n    _s1",
+    "If.ifexp": "if (_c0 or _c1) if _c2 else _c3:\n    _s0",
+    "While.or": "while _c0 or _c1:\n    _s0",
+    "Assert.and": "assert _c0 and _c1, _c2",
     "While": "while _c0:\n    _s0",
     "While.else": "while _c0:\n    _s0\nelse:\n    _s1",
     "While.block2": "while _c0:\n    _s0\n    _s1",
